@@ -8,11 +8,11 @@ import gen
 from core import derived_rng
 from util import call, quiet
 from props.C06 import describe, rules
-from props.C11 import _coord_map
 
 REQUIRED_THEOREMS = ['Usid.C12.cell_exact', 'Usid.C12.group_sizes', 'Usid.C12.reduced_anc_all_removed',
                      'Usid.C12.reduced_anc_keeps_labels', 'Usid.C12.memory_rejects']
-RULE = ('generator datasets (1-3 dimensions per side, sizes 1-4, any storage order, integer-valued data) x non-empty subsets '
+RULE = ('generator datasets (1-3 dimensions per side, sizes 1-4, any storage order, integer-valued data; a quarter with a '
+        'dimension whose reference values are NOT distinct - elements are identified by their indices, values checked separately) x non-empty subsets '
         'of their dimensions (thorough: EVERY non-empty subset) x {mean, sum, max, min, std} x the wrapper\'s view (file order, '
         'sorted at construction, toggled once or twice); in-memory result compared '
         'with the group-by of the raw data; with to_hdf5 the call must either produce a valid Main dataset whose every '
@@ -30,7 +30,7 @@ def generate(seed, tier):
     for i in range(n_cases):
         rng = derived_rng(seed, 'C12', i)
         while True:
-            ds = gen.gen_dataset(rng, max_dims=3, max_size=4, long_prob=0.12)
+            ds = gen.gen_dataset(rng, max_dims=3, max_size=4, long_prob=0.12, dup_prob=0.25)
             n, m = gen.n_points(ds['pos']), gen.n_points(ds['spec'])
             if n * m <= 300 and all(len(s['sizes']) <= gen.n_points(s) for s in (ds['pos'], ds['spec'])):
                 break
@@ -69,6 +69,35 @@ def _close(func, a, b):
     return a == b
 
 
+def _coord_map(f, h5):
+    """{sorted tuple of (label, INDEX)} -> main element, read with raw h5py; the dimensions' values need not be
+    distinct, so elements are identified by their indices and the (index -> value) tables are returned separately"""
+    pi, pv = f[h5.attrs['Position_Indices']], f[h5.attrs['Position_Values']]
+    si, sv = f[h5.attrs['Spectroscopic_Indices']], f[h5.attrs['Spectroscopic_Values']]
+
+    def strs(a):
+        return [x.decode() if isinstance(x, bytes) else str(x) for x in a]
+    pl, sl = strs(pv.attrs['labels']), strs(sv.attrs['labels'])
+    pinds, sinds = np.asarray(pi[()]).astype(int), np.asarray(si[()]).astype(int)
+    pvals = (np.asarray(pv[()], dtype=np.float64) * 4).round().astype(int)
+    svals = (np.asarray(sv[()], dtype=np.float64) * 4).round().astype(int)
+    data = np.asarray(h5[()], dtype=np.float64)
+    table = {}
+    for d, l in enumerate(pl):
+        for r in range(pinds.shape[0]):
+            table.setdefault(l, {}).setdefault(int(pinds[r, d]), set()).add(int(pvals[r, d]))
+    for d, l in enumerate(sl):
+        for c in range(sinds.shape[1]):
+            table.setdefault(l, {}).setdefault(int(sinds[d, c]), set()).add(int(svals[d, c]))
+    cells = []
+    for r in range(data.shape[0]):
+        for c in range(data.shape[1]):
+            key = sorted([[l, int(pinds[r, d])] for d, l in enumerate(pl)] + [[l, int(sinds[d, c])] for d, l in enumerate(sl)])
+            cells.append([key, float(data[r, c])])
+    table = {l: {str(i): sorted(v) for i, v in t.items()} for l, t in table.items()}
+    return cells, table, pl, sl, pi, pv, si, sv
+
+
 def run_impl(inp, work):
     from pyUSID import USIDataset
     ds = inp['ds']
@@ -89,33 +118,24 @@ def run_impl(inp, work):
             a = np.asarray(r[1][0].compute())
             out['mem'] = {'shape': list(a.shape), 'flat': [float(x) for x in a.ravel()]}
         if inp['to_file']:
-            src_map, _, _, _, src_pi, src_si = _coord_map(f, f['G/main'])
+            src_cells, _, _, _, spi, _, ssi, _ = _coord_map(f, f['G/main'])
+            src_pi, src_si = spi.name, ssi.name
             r = call(u.reduce, inp['dims'], ufunc=ufunc, to_hdf5=True)
             if r[0] == 'err':
                 out['file'] = {'err': r[1], 'cls': r[2]}
             else:
                 new = r[1][1]
                 h5n = f[new.name]
-                pi, pv = f[h5n.attrs['Position_Indices']], f[h5n.attrs['Position_Values']]
-                si, sv = f[h5n.attrs['Spectroscopic_Indices']], f[h5n.attrs['Spectroscopic_Values']]
+                cells, table, pl, sl, pi, pv, si, sv = _coord_map(f, h5n)
+                data = np.asarray(h5n[()], dtype=np.float64)
 
                 def strs(a):
                     return [x.decode() if isinstance(x, bytes) else str(x) for x in a]
-                pl, sl = strs(pv.attrs['labels']), strs(sv.attrs['labels'])
-                pvals = (np.asarray(pv[()], dtype=np.float64) * 4).round().astype(int)
-                svals = (np.asarray(sv[()], dtype=np.float64) * 4).round().astype(int)
-                data = np.asarray(h5n[()], dtype=np.float64)
-                cells = []
-                for rr in range(data.shape[0]):
-                    for cc in range(data.shape[1]):
-                        key = sorted([[l, int(pvals[rr, d])] for d, l in enumerate(pl)] +
-                                     [[l, int(svals[d, cc])] for d, l in enumerate(sl)])
-                        cells.append([key, float(data[rr, cc])])
-                out['file'] = {'valid': rules(describe(f, h5n)), 'shape': list(data.shape), 'cells': cells,
+                out['file'] = {'valid': rules(describe(f, h5n)), 'shape': list(data.shape), 'cells': cells, 'table': table,
                                'pos_labels': pl, 'spec_labels': sl, 'pos_reused': pi.name == src_pi,
                                'spec_reused': si.name == src_si,
                                'pos_units': strs(pv.attrs['units']), 'spec_units': strs(sv.attrs['units'])}
-            out['src_map'] = sorted([list(map(list, k)), v] for k, v in src_map.items())
+            out['src_map'] = [[k, int(round(v))] for k, v in src_cells]
     return out
 
 
@@ -188,6 +208,14 @@ def oracle(inp, obs):
             if bad:
                 fails.append('file-values: %d of %d written elements are not the %s of the source elements sharing their '
                              'remaining coordinates (dims %s)' % (len(bad), len(groups), func, inp['dims']))
+        # every remaining dimension carries, at each of its indices, its original reference value
+        for side in (ds['pos'], ds['spec']):
+            for l, vals in zip(side['labels'], side['values']):
+                if l in remaining:
+                    want_t = {str(i): [v] for i, v in enumerate(vals)}
+                    if fl.get('table', {}).get(l) != want_t:
+                        fails.append('file-unit-values: dimension %s of the written dataset carries %s, original reference '
+                                     'values %s' % (l, fl.get('table', {}).get(l), want_t))
         for side, key in ((ds['pos'], 'pos'), (ds['spec'], 'spec')):
             touched = any(l in inp['dims'] for l in side['labels'])
             if not touched and not fl[key + '_reused']:
